@@ -119,17 +119,36 @@ theorem ex_apropos_slash (p : Path) (m : DepMeta) (h : exApropos (p ++ ['/']) = 
       exact ⟨hp, rfl⟩
     · cases h
 
+theorem ex_apropos_self (q : Path) : exApropos (q ++ selfName) = none := by
+  unfold exApropos
+  have h1 : q ++ selfName ≠ "/t".toList := by
+    intro h
+    have := congrArg List.reverse h
+    simp [selfName] at this
+  have h2 : q ++ selfName ≠ "/s/".toList := by
+    intro h
+    have := congrArg List.reverse h
+    simp [selfName] at this
+  rw [if_neg h1, if_neg h2]
+
+theorem ex_selfMeta (l : Path) : selfMeta exApropos l = none := by
+  unfold selfMeta
+  rw [ex_apropos_self]
+
 theorem ex_refs_other (X : Path) (h1 : X ≠ "/t".toList) (h2 : X ≠ "/s/".toList) :
     ∀ Y ∈ refsOf exApropos X, Y = "/t".toList := by
-  intro Y hY
-  unfold refsOf lvlArgs at hY
+  intro Y hY0
+  have hY := (List.mem_filter.1 hY0).1
+  clear hY0
+  unfold rawRefs lvlArgs at hY
   cases hl : levels (X.length + 1) X with
   | nil => rw [hl] at hY; simp at hY
   | cons l r =>
     rw [hl] at hY
     have hlX := levels_head _ _ _ _ hl
     subst hlX
-    simp only [List.flatMap_cons, List.mem_append, List.mem_flatMap, List.mem_map] at hY
+    simp only [List.flatMap_cons, List.mem_append, List.mem_flatMap, List.mem_map, refsAt, ex_selfMeta,
+      List.append_nil] at hY
     rcases hY with hY | ⟨la, ⟨p, _, rfl⟩, hY⟩
     · have : exApropos l = none := by
         unfold exApropos
